@@ -1,0 +1,28 @@
+//go:build verif
+
+package search
+
+// Specification functions of the b6vc verifier (/verif) for the search iterators.
+// All four are uninterpreted in every proof (contract "opaque"); the bodies are unused.
+
+// vRank / kRank: position of a value / key in the order the index's Values
+// implementation defines (Compare, CompareKey and Key agree on it).
+func vRank(v Value) int { return 0 }
+func kRank(k Key) int   { return 0 }
+
+// Abstract view of an Iterator: it walks a fixed strictly increasing sequence of
+// sLen(it) values; sRank(it, i) is the rank of value i. The int ghost field "spos"
+// is the current index: -1 before the first call, sLen(it) when an Advance ran off
+// the end, otherwise the index of the current value.
+func sLen(it Iterator) int         { return 0 }
+func sRank(it Iterator, i int) int { return 0 }
+
+// cmp3 is the three-way comparison of two ranks.
+func cmp3(a int, b int) Comparison {
+	if a < b {
+		return ComparisonLess
+	} else if a > b {
+		return ComparisonGreater
+	}
+	return ComparisonEqual
+}
